@@ -48,6 +48,10 @@ pub enum Take {
     Forget,
     /// take one from the front, then `keep_rest()` (drain only)
     KeepRest,
+    /// take one from the back, then `keep_rest()`
+    KeepRestBack,
+    /// `keep_rest()` right away
+    KeepRestNone,
 }
 
 #[derive(Clone, Copy, Debug, PartialEq, Eq, Hash)]
@@ -132,8 +136,8 @@ fn take_model(mut it: Vec<u32>, take: Take) -> Vec<u32> {
             it.truncate(1);
             it
         }
-        Take::BackOne => it.pop().into_iter().collect(),
-        Take::None => Vec::new(),
+        Take::BackOne | Take::KeepRestBack => it.pop().into_iter().collect(),
+        Take::None | Take::KeepRestNone => Vec::new(),
     }
 }
 
@@ -280,11 +284,14 @@ pub fn model_apply(m: &mut Vec<u32>, kind: Kind, op: &VOp, fixed_cap: usize) -> 
                 return None;
             }
             let d: Vec<u32> = m.drain(s..e).collect();
-            if take == Take::KeepRest && d.len() > 1 {
-                // the un-yielded part of the range stays in the vector
-                let rest: Vec<u32> = d[1..].to_vec();
-                m.splice(s..s, rest);
-            }
+            // keep_rest: the un-yielded part of the range stays in the vector
+            let rest: Vec<u32> = match take {
+                Take::KeepRest if !d.is_empty() => d[1..].to_vec(),
+                Take::KeepRestBack if !d.is_empty() => d[..d.len() - 1].to_vec(),
+                Take::KeepRestNone => d.clone(),
+                _ => Vec::new(),
+            };
+            m.splice(s..s, rest);
             Ret::vals(take_model(d, take))
         }
         VOp::Splice(s, e, c, take) => {
@@ -305,7 +312,7 @@ pub fn model_apply(m: &mut Vec<u32>, kind: Kind, op: &VOp, fixed_cap: usize) -> 
             let limit = match take {
                 Take::All => usize::MAX,
                 Take::FrontOne | Take::Forget | Take::KeepRest => 1,
-                Take::BackOne => return None,
+                Take::BackOne | Take::KeepRestBack | Take::KeepRestNone => return None,
                 Take::None => 0,
             };
             let mut stopped_at = n;
@@ -460,13 +467,13 @@ pub fn take_from<T: ElemT, I: DoubleEndedIterator<Item = T>>(mut it: I, take: Ta
             }
             (out, Some(it))
         }
-        Take::BackOne => {
+        Take::BackOne | Take::KeepRestBack => {
             if let Some(v) = it.next_back() {
                 out.push(v.val());
             }
             (out, Some(it))
         }
-        Take::None => (out, Some(it)),
+        Take::None | Take::KeepRestNone => (out, Some(it)),
     }
 }
 
@@ -628,13 +635,13 @@ macro_rules! retain_ops {
                 let (out, it) = take_from(d, take);
                 match take {
                     Take::Forget => std::mem::forget(it),
-                    Take::KeepRest => it.unwrap().keep_rest(),
+                    Take::KeepRest | Take::KeepRestBack | Take::KeepRestNone => it.unwrap().keep_rest(),
                     _ => drop(it),
                 }
                 return Some(Ret::vals(out));
             }
             VOp::ExtractIf(mask, take) => {
-                if take == Take::BackOne {
+                if matches!(take, Take::BackOne | Take::KeepRestBack | Take::KeepRestNone) {
                     return None;
                 }
                 let mut i = 0;
